@@ -175,3 +175,18 @@ def history_noise(circuit, rng) -> None:
         circuit.map(HardcodedMapper(n, Mapping(perm)))
     except Exception:  # noqa: BLE001
         pass
+
+
+def history_twin(case_builder, passes, rng, prob: float = 0.3) -> None:
+    """With probability `prob`, build a twin of the circuit under test (same specification, separate objects), run
+    the same passes on it and then relabel its qubits (history_noise). The twin is discarded; only state that the
+    library shares between circuits can make this visible to later cases."""
+    if rng.random() >= prob:
+        return
+    try:
+        twin = case_builder()
+        for p in passes:
+            apply_pass(twin, list(p))
+        history_noise(twin, rng)
+    except Exception:  # noqa: BLE001
+        pass
